@@ -70,9 +70,22 @@ Definition brace_step (acc c : Z) : Z :=
 Fixpoint brace_count (s : list Z) (acc : Z) : Z :=
   match s with [] => acc | c :: t => brace_count t (brace_step acc c) end.
 
-(* colvarparse::check_braces(conf, start_pos) == COLVARS_OK *)
-Definition check_braces (conf : list Z) (start : nat) : bool :=
+(* check_braces as pinned: only the numbers of '{' and '}' were compared (kept for the record) *)
+Definition check_braces_pinned (conf : list Z) (start : nat) : bool :=
   brace_count (skipn start conf) 0 =? 0.
+
+(* the loop of check_braces after the repair: the count must never become negative and must end at 0;
+   d is the current brace_count *)
+Fixpoint braces_ok (s : list Z) (d : nat) : bool :=
+  match s with
+  | [] => (d =? 0)%nat
+  | c :: t => if c =? LBRACE then braces_ok t (S d)
+              else if c =? RBRACE then match d with O => false | S d' => braces_ok t d' end
+              else braces_ok t d
+  end.
+
+(* colvarparse::check_braces(conf, start_pos) == COLVARS_OK *)
+Definition check_braces (conf : list Z) (start : nat) : bool := braces_ok (skipn start conf) O.
 
 (* ---------------------------------------------------------------- lines, comments (read_config_string) *)
 
@@ -107,8 +120,7 @@ Definition strip_comments (s : list Z) : list Z := flat_map keep_line (split_lin
 
 Inductive kl_reg :=
 | RegNone                        (* nothing pushed to data_begin_pos / data_end_pos *)
-| Reg (b e : nat)
-| RegAnomaly.                    (* conf.find(data, ...) == npos pushed (never for keywords, see proofs) *)
+| Reg (b e : nat).               (* [b, e): where the value sits in conf *)
 
 Inductive kl_result :=
 | KL_notfound
@@ -190,10 +202,15 @@ Fixpoint brace_loop (fuel : nat) (conf line : list Z) (line_end last : nat) (cou
       brace_loop f conf (line ++ substr conf lb (le - lb)) le last' count'
   end.
 
-Definition mk_reg (conf data : list Z) (from : nat) : kl_reg :=
+(* data_begin_pos / data_end_pos: line_start + data_begin, + data->size()
+   (the pinned code pushed conf.find(data, pos+key.size()), which can point at earlier text: mk_reg_pinned) *)
+Definition mk_reg (data : list Z) (start : nat) : kl_reg :=
+  match data with [] => RegNone | _ => Reg start (start + length data) end.
+
+Definition mk_reg_pinned (conf data : list Z) (from : nat) : option kl_reg :=
   match data with
-  | [] => RegNone
-  | _ => match find_sub conf data from with Some b => Reg b (b + length data) | None => RegAnomaly end
+  | [] => Some RegNone
+  | _ => match find_sub conf data from with Some b => Some (Reg b (b + length data)) | None => None end
   end.
 
 (* the part of key_lookup after the keyword has been found at pos *)
@@ -210,7 +227,7 @@ Definition extract_value (fuel : nat) (conf key : list Z) (pos : nat) : kl_resul
     match find_if (fun c => c =? LBRACE) line db with
     | None =>
       let data := if (db <? de)%nat then substr line db (de - db) else [] in
-      KL_found pos data line_end (mk_reg conf data (pos + klen))
+      KL_found pos data line_end (mk_reg data (line_begin + db))
     | Some br =>
       match brace_loop fuel conf line line_end br 1 with
       | BOutOfFuel => KL_outoffuel
@@ -222,7 +239,7 @@ Definition extract_value (fuel : nat) (conf key : list Z) (pos : nat) : kl_resul
                      | Some (S k) => k | _ => length line' end in
         let de' := match rfind_if (fun c => negb (is_ws c)) line' lastb with Some k => S k | None => O end in
         let data := if (db' <? de')%nat then substr line' db' (de' - db') else [] in
-        KL_found pos data line_end' (mk_reg conf data (pos + klen))
+        KL_found pos data line_end' (mk_reg data (line_begin + db'))
       end
     end
   end.
@@ -375,6 +392,42 @@ Definition extract_word (l : list Z) : ext (list Z) :=
 (* the value just read is followed by white space or by the end of the text *)
 Definition delimited (rest : list Z) : bool := match rest with [] => true | c :: _ => is_space c end.
 
+(* `is >> sep` for a char that must be c: skips white space, reads one character *)
+Definition expect_char (c : Z) (l : list Z) : option (list Z) :=
+  match skip_space l with x :: t => if x =? c then Some t else None | [] => None end.
+
+(* after the '(' : n numbers separated by ',' (operator>> of rvector, quaternion, vector1d) *)
+Fixpoint tuple_items (n : nat) (l : list Z) : option (list dec * list Z) :=
+  match n with
+  | O => Some ([], l)
+  | S m =>
+    match skip_space l with
+    | [] => None
+    | c :: t =>
+      match extract_real (c :: t) with
+      | ExtFail => None
+      | ExtOk v r =>
+        match m with
+        | O => Some ([v], r)
+        | S _ => match expect_char 44 r with
+                 | None => None
+                 | Some r' => match tuple_items m r' with Some (vs, r2) => Some (v :: vs, r2) | None => None end
+                 end
+        end
+      end
+    end
+  end.
+
+(* `is >> x` for a 3-vector "( x , y , z )" (n = 3), a quaternion (n = 4), a vector value of n entries *)
+Definition extract_tuple (n : nat) (l : list Z) : ext (list dec) :=
+  match expect_char 40 l with
+  | None => ExtFail
+  | Some l1 => match tuple_items n l1 with
+               | None => ExtFail
+               | Some (vs, r) => match expect_char 41 r with Some r' => ExtOk vs r' | None => ExtFail end
+               end
+  end.
+
 Section Values.
   Context {A : Type}.
   Variable extract : list Z -> ext A.
@@ -448,6 +501,22 @@ Definition bool_value (data : list Z) : sres (A := bool) :=
 
 (* ---------------------------------------------------------------- strip_values / check_keywords *)
 
+(* position i of conf belongs to a registered value *)
+Definition covered (rs : list kl_reg) (i : nat) : bool :=
+  existsb (fun r => match r with Reg b e => (b <=? i)%nat && (i <? e)%nat | RegNone => false end) rs.
+
+Fixpoint strip_from (rs : list kl_reg) (s : list Z) (i : nat) : list Z :=
+  match s with
+  | [] => []
+  | c :: t => if covered rs i then strip_from rs t (S i) else c :: strip_from rs t (S i)
+  end.
+
+(* strip_values after the repair: the characters of all registered values are dropped (ranges may repeat, nest,
+   overlap or reach beyond the end) *)
+Definition strip_values (conf : list Z) (rs : list kl_reg) : list Z := strip_from rs conf O.
+
+(* strip_values as pinned (kept for the record): begin and end positions sorted and uniqued SEPARATELY, then paired;
+   conf.erase(pos, n) throws std::out_of_range when pos > size (None) *)
 Fixpoint insert_sorted (x : nat) (l : list nat) : list nat :=
   match l with [] => [x] | y :: t => if (x <=? y)%nat then x :: l else y :: insert_sorted x t end.
 Definition sort_nat (l : list nat) : list nat := fold_right insert_sorted [] l.
@@ -456,12 +525,8 @@ Fixpoint uniq_adj (l : list nat) : list nat :=
   | [] => []
   | x :: t => match t with [] => [x] | y :: _ => if (x =? y)%nat then uniq_adj t else x :: uniq_adj t end
   end.
-
-(* conf.erase(pos, n): throws std::out_of_range when pos > size *)
 Definition erase (s : list Z) (pos n : nat) : option (list Z) :=
   if (length s <? pos)%nat then None else Some (firstn pos s ++ skipn (pos + n) s).
-
-(* the for loop of strip_values; size_t subtraction wraps, and a wrapped position is > size: None *)
 Fixpoint strip_loop (s : list Z) (bs es : list nat) (offset : nat) : option (list Z) :=
   match bs, es with
   | b :: bs', e :: es' =>
@@ -472,13 +537,11 @@ Fixpoint strip_loop (s : list Z) (bs es : list nat) (offset : nat) : option (lis
          end
   | _, _ => Some s
   end.
-
 Definition reg_begins (rs : list kl_reg) : list nat :=
   flat_map (fun r => match r with Reg b _ => [b] | _ => [] end) rs.
 Definition reg_ends (rs : list kl_reg) : list nat :=
   flat_map (fun r => match r with Reg _ e => [e] | _ => [] end) rs.
-
-Definition strip_values (conf : list Z) (rs : list kl_reg) : option (list Z) :=
+Definition strip_values_pinned (conf : list Z) (rs : list kl_reg) : option (list Z) :=
   strip_loop conf (uniq_adj (sort_nat (reg_begins rs))) (uniq_adj (sort_nat (reg_ends rs))) O.
 
 (* `line_is >> uk` *)
@@ -497,23 +560,24 @@ Definition line_ok (allowed : list (list Z)) (l : list Z) : bool :=
 Definition check_lines (allowed : list (list Z)) (stripped : list Z) : bool :=
   forallb (line_ok allowed) (split_lines stripped).
 
-Inductive ck_result := CK_ok | CK_unknown_keyword | CK_anomaly.
+Inductive ck_result := CK_ok | CK_unknown_keyword.
 
 Definition check_keywords (allowed : list (list Z)) (conf : list Z) (rs : list kl_reg) : ck_result :=
-  if existsb (fun r => match r with RegAnomaly => true | _ => false end) rs then CK_anomaly
-  else match strip_values conf rs with
-       | None => CK_anomaly
-       | Some s => if check_lines allowed s then CK_ok else CK_unknown_keyword
-       end.
+  if check_lines allowed (strip_values conf rs) then CK_ok else CK_unknown_keyword.
 
 (* ---------------------------------------------------------------- a generic client: flat schema *)
 
-Inductive kind := KReal | KInt | KBool | KString | KRealVec | KRealVecN (n : nat) | KBlock.
+Inductive kind := KReal | KInt | KBool | KString | KRealVec | KRealVecN (n : nat) | KBlock
+| KTuple (n : nat)               (* cvm::rvector (3), cvm::quaternion (4), colvarvalue of type vector (n) *)
+| KReq (k : kind).               (* the same keyword looked up with parse_required *)
+
+Fixpoint base_kind (k : kind) : kind := match k with KReq k' => base_kind k' | _ => k end.
+Definition is_required (k : kind) : bool := match k with KReq _ => true | _ => false end.
 
 Inductive value :=
 | VNotGiven
 | VReal (d : dec) | VInt (z : Z) | VBool (b : bool) | VString (s : list Z)
-| VReals (l : list dec) | VBlocks (l : list (list Z))
+| VReals (l : list dec) | VBlocks (l : list (list Z)) | VTuple (l : list dec)
 | VBad.                                           (* an error was raised for this keyword *)
 
 Record pstate := { ps_allowed : list (list Z); ps_regs : list kl_reg; ps_err : bool; ps_oof : bool;
@@ -521,7 +585,8 @@ Record pstate := { ps_allowed : list (list Z); ps_regs : list kl_reg; ps_err : b
 
 (* strict = the repaired _get_keyval_scalar_value_ / _get_keyval_vector_; otherwise the pinned ones *)
 Definition get_keyval (strict : bool) (conf : list Z) (st : pstate) (kk : list Z * kind) : pstate :=
-  let '(key, k) := kk in
+  let '(key, k0) := kk in
+  let k := base_kind k0 in
   let r := key_string_values conf key in
   let multi := (1 <? ksv_count r)%nat in
   let data := ksv_data r in
@@ -549,20 +614,24 @@ Definition get_keyval (strict : bool) (conf : list Z) (st : pstate) (kk : list Z
         | KRealVecN n => match (if strict then vector_fixed extract_real n data
                                 else vector_fixed_lenient extract_real n data)
                          with VAccept l => (VReals l, false) | VReject => (VBad, true) end
+        | KTuple n => match (if strict then scalar_value (extract_tuple n) data else scalar_value_lenient (extract_tuple n) data)
+                      with SAccept l => (VTuple l, false) | SReject => (VBad, true) end
         | KBlock => (VBad, true)
+        | KReq _ => (VBad, true)
         end
       end
     end in
   {| ps_allowed := ps_allowed st ++ [to_lower key];
      ps_regs := ps_regs st ++ ksv_regs r;
-     ps_err := ps_err st || ksv_err r || (match k with KBlock => false | _ => multi end) || bad;
+     (* error_key_required: a keyword looked up with parse_required must be present *)
+     ps_err := ps_err st || ksv_err r || (match k with KBlock => false | _ => multi end) || bad ||
+               (is_required k0 && negb (ksv_found r));
      ps_oof := ps_oof st || ksv_oof r;
      ps_values := ps_values st ++ [v] |}.
 
 Inductive presult :=
 | PAccept (vs : list value)
 | PReject                        (* an error bit is set: the configuration is refused *)
-| PAnomaly                       (* a C++ exception / out-of-range the code does not handle *)
 | POutOfFuel.
 
 (* look up every keyword of the schema in conf (get_keyval), then check_keywords *)
@@ -571,7 +640,6 @@ Definition parse_flat (strict : bool) (schema : list (list Z * kind)) (conf : li
               {| ps_allowed := []; ps_regs := []; ps_err := false; ps_oof := false; ps_values := [] |} in
   if ps_oof st then POutOfFuel
   else match check_keywords (ps_allowed st) conf (ps_regs st) with
-       | CK_anomaly => PAnomaly
        | CK_unknown_keyword => PReject
        | CK_ok => if ps_err st then PReject else PAccept (ps_values st)
        end.
@@ -601,3 +669,42 @@ Fixpoint split_string_loop (fuel : nat) (data delim : list Z) (index : nat) (acc
 
 Definition split_string (data delim : list Z) : option (list (list Z)) :=
   split_string_loop (S (length data)) data delim O [].
+
+(* ---------------------------------------------------------------- a nested client: blocks within blocks *)
+
+(* a keyword of a block is either a leaf (typed value) or a sub-block with its own keywords, as
+   colvar > component > atom group: the text of a sub-block is handed to a new parser object
+   (init(conf) of the sub-object), whose check_keywords then examines that text *)
+Inductive nitem :=
+| NLeaf (key : list Z) (k : kind)
+| NBlock (key : list Z) (sub : list nitem).
+
+Record ires := { ir_allowed : list Z; ir_regs : list kl_reg; ir_err : bool }.
+
+Definition is_nil (d : list Z) : bool := match d with [] => true | _ => false end.
+
+(* what one level does after its items have been looked up: check_keywords on its own text *)
+Definition level_ok (rs : list ires) (conf : list Z) : bool :=
+  negb (existsb ir_err rs) &&
+  match check_keywords (map ir_allowed rs) conf (flat_map ir_regs rs) with CK_ok => true | CK_unknown_keyword => false end.
+
+Fixpoint item_res (strict : bool) (it : nitem) (conf : list Z) {struct it} : ires :=
+  match it with
+  | NLeaf key k =>
+    let st := get_keyval strict conf
+                {| ps_allowed := []; ps_regs := []; ps_err := false; ps_oof := false; ps_values := [] |} (key, k) in
+    {| ir_allowed := to_lower key; ir_regs := ps_regs st; ir_err := ps_err st || ps_oof st |}
+  | NBlock key sub =>
+    let r := key_string_values conf key in
+    let block_ok := fun d => negb (is_nil d) && level_ok (map (fun i => item_res strict i d) sub) d in
+    {| ir_allowed := to_lower key; ir_regs := ksv_regs r;
+       ir_err := ksv_err r || ksv_oof r || negb (forallb block_ok (ksv_all r)) |}
+  end.
+
+(* a level: look up every item in the text of the level, recursively descend into the blocks found,
+   then check_keywords on the text of the level *)
+Definition nparse (strict : bool) (items : list nitem) (conf : list Z) : bool :=
+  level_ok (map (fun i => item_res strict i conf) items) conf.
+
+Definition nparse_config (strict : bool) (items : list nitem) (raw : list Z) : bool :=
+  let conf := strip_comments raw in check_braces conf O && nparse strict items conf.
